@@ -229,6 +229,12 @@ func (*regReporter).Process returns (err)
   // the element / ingredient lines of the hand-written register (C02): unless --totals-only, every logged food gets its
   // line (name, quantity) followed by one line per resolved element with quantity x amount - or the food itself
   // when the book does not define it
+  // the layouts of the hand-written register's lines
+  ghost after call 1 printDate { assert @date-layout [C02] prFmt[prLen - 1] == "%s\n" }
+  ghost after call 1 printElement { assert @food-layout [C02] prFmt[prLen - 1] == "\t%-27s :%s\n" }
+  ghost after call 1 printIngredient { assert @ingredient-layout [C02] prFmt[prLen - 1] == "\t\t%20s %s\n" }
+  ghost after call 2 printIngredient { assert @self-layout [C02] prFmt[prLen - 1] == "\t\t%20s %s\n" }
+  ghost after call 1 printTotalRow { assert @total-layout [C02] prFmt[prLen - 1] == "\t\t%20s %s %s =%s\n" }
   ghost before call 1 printElement { assert @food-line [C02 C15] !r.config.TotalsOnly && #arg1 == element }
   ghost before call 1 printIngredient { assert @ingredient-line [C02 C15] !r.config.TotalsOnly && #arg1 == repl.Name && #arg2 == repl.Value * element.Value }
   ghost before call 2 printIngredient { assert @self-line [C02 C15] !r.config.TotalsOnly && #arg1 == element.Name && #arg2 == element.Value }
@@ -357,6 +363,7 @@ macro RegBoolFlag(f cli.Flag, name string) bool := typeis(f, "*cli.BoolFlag") &&
 func NewRegisterCommand returns (cmd)
   props C16 C15 C08
   ensures @name cmd != nil && cmd.Name == "register" && len(cmd.Aliases) == 1 && cmd.Aliases[0] == "reg"
+  ensures @short-forms [C16 C15] StrAlias(cmd.Flags[0], "b") && StrAlias(cmd.Flags[1], "e") && StrAlias(cmd.Flags[2], "f") && StrAlias(cmd.Flags[3], "s") && BoolAlias(cmd.Flags[4], "g")
   ensures @flags [C16 C15] len(cmd.Flags) == 12 && RegStrFlag(cmd.Flags[0], "begin") && RegStrFlag(cmd.Flags[1], "end") && RegStrFlag(cmd.Flags[2], "single-food") && RegStrFlag(cmd.Flags[3], "single-element") && RegBoolFlag(cmd.Flags[4], "group-food") && RegBoolFlag(cmd.Flags[5], "csv") && RegBoolFlag(cmd.Flags[6], "no-color") && RegBoolFlag(cmd.Flags[7], "no-totals") && RegBoolFlag(cmd.Flags[8], "totals-only") && RegBoolFlag(cmd.Flags[9], "shorten") && RegBoolFlag(cmd.Flags[10], "use-old-reg-reporter") && RegStrFlag(cmd.Flags[11], "internal-template-name")
 
 // The two register templates (C02, C15). text/template interprets them at run time, so what they DO is outside the
